@@ -141,6 +141,22 @@ class PathRules:
                        "dominated by !destination.exists()" if ok else
                        "mutating call %s is not dominated by a failed destination.exists() check: an existing "
                        "destination is not refused before side effects" % site.short, site.line)
+            # stream route: nothing is created at the destination before the source has been opened successfully
+            # (a source that is missing / a directory must fail the call with the destination untouched)
+            if name in ("copy_file", "move_file"):
+                for cb, s in self.sites(name, lambda s: sname(s.path) == "create_file" and s.self_ty and s.self_ty.endswith("VfsPath")):
+                    trc = get_tracer(self.facts, cb)
+                    if not (s.args and self.is_arg(trc.operand(s.args[0]), 1)):
+                        continue
+                    gs = self.guards(cb, s.bb)
+                    ok = any(g[0] == "variant" and g[2] == "ok" and peel(g[1])[0] == "call" and sname(peel(g[1])[1]) == "open_file" and
+                             peel(g[1])[2] and self.is_arg(peel(g[1])[2][0], 0) for g in gs)
+                    n += 1
+                    rep.ob(rule, b.id, "%s: destination created only after the source was opened" % name, ok,
+                           "destination.create_file() is dominated by the Ok edge of self.open_file()" if ok else
+                           "destination.create_file() runs before self.open_file() has succeeded: a copy/move whose source is missing "
+                           "or is a directory fails but leaves an empty file at the destination (through OverlayFS::append_file's "
+                           "copy-up: a lower-layer directory is shadowed by an empty file)", s.line)
             # the refusal builds an error
             ss = self.sites(name, lambda s: sname(s.path) == "exists")
             has_refusal = False
@@ -517,6 +533,29 @@ class PathRules:
                             cont = True
                 if cont:
                     tolerated.add(variant)
+                    if variant == "DirectoryExists":
+                        # the tolerance is unconditional: from this arm no Err return is reachable before the next attempt
+                        create_bbs = {s.bb for c2, s in creates if c2 is cb}
+                        seen, st = set(), [d_]
+                        bad_line = None
+                        while st:
+                            x = st.pop()
+                            if x in seen:
+                                continue
+                            seen.add(x)
+                            blk = cb.blocks[x]
+                            for st_ in blk.stmts:
+                                if st_.kind == "assign" and st_.lhs.local == 0 and st_.lhs.is_local() and st_.rv.kind == "agg" and \
+                                        st_.rv.agg.get("variant") == "Err":
+                                    bad_line = st_.line
+                            if x in create_bbs:
+                                continue
+                            st.extend(tr.cfg.succ[x])
+                        n += 1
+                        rep.ob(rule, b.id, "create_dir_all: DirectoryExists is tolerated unconditionally", bad_line is None,
+                               "no Err return between the DirectoryExists arm and the next attempt" if bad_line is None else
+                               "the DirectoryExists arm can still return Err (the tolerance depends on further state): a caller "
+                               "that is overtaken by a concurrent create_dir_all on an overlapping path fails with DirectoryExists", bad_line or b.span)
             # the catch-all arm must return the error
             for e in rf.err_edges():
                 pass
